@@ -54,7 +54,7 @@ impl Ctx {
 
 /// Properties whose monitors have a `case` driven by one generator stream; the coverage-guided
 /// stage feeds that stream from the fuzzer's bytes (a "decision tape") instead of the PRNG.
-pub const GUIDED_PROPS: [&str; 5] = ["C02", "C03", "C04", "C05", "C15"];
+pub const GUIDED_PROPS: [&str; 6] = ["C01", "C02", "C03", "C04", "C05", "C15"];
 
 /// Run one case of `prop`'s monitor with the generator's decisions read from `tape`.
 /// Violations carry the tape as their replay coordinates.
@@ -64,6 +64,7 @@ pub fn guided_case(prop: &str, tape: &[u8]) -> Report {
     util::set_decision_tape(tape);
     let coords = || J::obj().set("property", prop).set("kind", "tape");
     mon::guarded(&mut tmp, coords, |rep| match prop {
+        "C01" => mon::c01::case(&ctx, 1, 0, rep),
         "C02" => mon::c02::case(&ctx, 0, 0, rep),
         "C03" => mon::c03::case(&ctx, 0, 0, rep),
         "C04" => mon::c04::case(&ctx, 0, 0, rep),
